@@ -83,7 +83,9 @@ def queries(depth):
     h, v = hints(depth), values(min(depth, 2))
     return st.one_of(
         selfcalls(),
-        st.tuples(st.sampled_from(['is_bearable', 'is_bearable', 'die', 'call']), h, v).map(lambda t: [t[0], t[1], t[2]]),
+        # the door functions take a public exception_prefix keyword: both are asked with the same explicit prefix now and then
+        st.tuples(st.sampled_from(['is_bearable', 'is_bearable', 'die', 'call']), h, v, st.sampled_from(['shared: ', None, None])).map(
+            lambda t: [t[0], t[1], t[2]] + ([t[3]] if t[3] and t[0] != 'call' else [])),
         st.tuples(st.sampled_from(['is_subhint', 'typehint_eq']), h, h).map(lambda t: [t[0], t[1], t[2]]),
     )
 
@@ -118,6 +120,8 @@ def related(q):
     """Operations likely to interact with the final query: same hint shape with look-alike leaves."""
     if q[0] == 'selfcall':
         return ['selfcall', 'SB' if q[1] == 'SA' else 'SA', q[2], 'own']     # the same hint text in the other class
+    if q[0] in ('is_bearable', 'die') and len(q) > 3:
+        return [{'is_bearable': 'die', 'die': 'is_bearable'}[q[0]]] + q[1:]   # the other door function, same hint / prefix
     swaps = {('lit', 1): ['lit', True], ('lit', True): ['lit', 1], ('lit', 0): ['lit', False], ('lit', False): ['lit', 0],
              ('dyn', 'Dyn', 'v1'): ['dyn', 'Dyn', 'v2'], ('dyn', 'Dyn', 'v2'): ['dyn', 'Dyn', 'v1'], ('dyn', 'Dyn', 'v3'): ['dyn', 'Dyn', 'v1']}
 
@@ -168,6 +172,21 @@ def _case(draw, tier):
             hist.append(q if b == 'ask' else [b])
         hist.append([draw(st.sampled_from(['define_late', 'define_late', 'define_late_bad']))])
         return {'history': hist, 'final': q, 'late_defined': False}
+    if draw(st.integers(0, 7)) == 0:
+        # door pair: the two door functions (and TypeHint's methods through them) asked about the same cacheable hint under the same
+        # configuration and explicit exception_prefix, in both orders, with conforming and violating objects
+        leafval = draw(st.sampled_from([(['int'], ['i', 1], ['s', 'a']), (['str'], ['s', 'a'], ['i', 1]),
+                                        (['dyn', 'Dyn', 'v1'], ['inst', 'Dyn', 'v1'], ['i', 0])]))
+        w = draw(st.sampled_from(['list', 'bare', 'dict', 'opt']))
+        hint = {'bare': leafval[0], 'list': ['list', leafval[0]], 'dict': ['dict', leafval[0]], 'opt': ['opt', leafval[0]]}[w]
+
+        def val(v):
+            return {'list': ['list', [v]], 'dict': ['dictv', v]}.get(w, v)
+        prefix = draw(st.sampled_from(['shared: ', 'other: ']))
+        kinds = draw(st.sampled_from([['die', 'is_bearable'], ['is_bearable', 'die']]))
+        hist = [[kinds[0], hint, val(draw(st.sampled_from([leafval[1], leafval[2]]))), prefix]]
+        hist += draw(st.lists(st.sampled_from([['gc'], [kinds[0], hint, val(leafval[1]), prefix]]), max_size=2))
+        return {'history': hist, 'final': [kinds[1], hint, val(draw(st.sampled_from([leafval[1], leafval[2]]))), prefix], 'late_defined': False}
     final = draw(st.one_of(queries(d), focused_query(), focused_query()))
     # never an empty history (the reference run is the empty one); lengths spread evenly instead of Hypothesis' small-size bias
     n = draw(st.sampled_from([1, 2, 3, 4, 6, 8, 10, 12] + ([16, 20, 25] if tier != 'quick' else [])))
@@ -339,10 +358,11 @@ class World:
                     from beartype._util.cache.utilcacheclear import clear_caches
                     clear_caches()
                     return ['done']
+                kw = {'exception_prefix': op[3]} if len(op) > 3 and isinstance(op[3], str) else {}
                 if k == 'is_bearable':
-                    return ['bool', is_bearable(self.value(op[2]), self.hint(op[1]))]
+                    return ['bool', is_bearable(self.value(op[2]), self.hint(op[1]), **kw)]
                 if k == 'die':
-                    die_if_unbearable(self.value(op[2]), self.hint(op[1]))
+                    die_if_unbearable(self.value(op[2]), self.hint(op[1]), **kw)
                     return ['ok']
                 if k == 'is_subhint':
                     return ['bool', is_subhint(self.hint(op[1]), self.hint(op[2]))]
